@@ -22,24 +22,28 @@ Inductive verdict :=
 | VAccept            (* passes the guards: the handler goes on (it may still have no effect) *)
 | VReject            (* refused and answered: RejectedAllocation / RejectedApplication / RejectedNode *)
 | VIgnore            (* refused without answer: the protocol has no rejection message for this request *)
-| VDecide.           (* passes the guards modelled here; a later stage (placement, ACL, queue checks) accepts or rejects *)
+| VDecide            (* passes the guards modelled here; a later stage (placement, ACL, queue checks) accepts or rejects *)
+| VCrash.            (* the handler dereferences nil: the event goroutine panics *)
 
 Definition node_known (s : ostate) (n : N) : bool := match find_node s n with Some _ => true | None => false end.
 Definition app_known (s : ostate) (a : N) : bool := match find_app s a with Some _ => true | None => false end.
 
 Definition res_has_negative (r : res) : bool := existsb (fun kv => (snd kv <? 0)%Z) r.
 
+(* `fixed` selects the code after (true) or before (false) the fix: commits bea76fa, 5223894, e73171d, 32d9a1c found
+   by this property; the correspondence run uses fixed = true, the theorems show what each fix repaired *)
 (* ---- UpdateAllocation and its callers ---- *)
-Definition alloc_guard (s : ostate) (r : oreq) : verdict :=
+Definition alloc_guard_gen (fixed : bool) (s : ostate) (r : oreq) : verdict :=
   (* processAllocations: partition lookup *)
   if negb (rq_partition_ok r) then VReject else
-  (* NewAllocationFromSI returns nil for a placeholder without task group: answered since fix e73171d *)
-  if rq_ph r && (rq_tg r =? 0) then VReject else
+  (* NewAllocationFromSI returns nil for a placeholder without task group; UpdateAllocation(nil) returns no error:
+     before e73171d the request vanished without an answer *)
+  if rq_ph r && (rq_tg r =? 0) then (if fixed then VReject else VIgnore) else
   if rq_foreign r then
     (* handleForeignAllocation *)
     if rq_node r =? 0 then VReject else
     if negb (node_known s (rq_node r)) then VReject else
-    if res_has_negative (oget (rq_res r)) then VReject else      (* fix 32d9a1c *)
+    if fixed && res_has_negative (oget (rq_res r)) then VReject else      (* 32d9a1c *)
     VAccept
   else
     match find_app s (rq_app r) with
@@ -55,9 +59,10 @@ Definition alloc_guard (s : ostate) (r : oreq) : verdict :=
             else VAccept
         end
     end.
+Definition alloc_guard := alloc_guard_gen true.
 
 (* ---- processAllocationReleases / removeAllocation ---- *)
-Definition release_guard (s : ostate) (app key : N) : verdict :=
+Definition release_guard_gen (fixed : bool) (s : ostate) (app key ty : N) : verdict :=
   if app =? 0 then
     (* foreign: removeForeignAllocation, a missing key is logged only *)
     if memN key (map oa_key (s_foreign s)) then VAccept else VIgnore
@@ -65,31 +70,42 @@ Definition release_guard (s : ostate) (app key : N) : verdict :=
     match find_app s app with
     | None => VIgnore                                              (* application not found: nothing to do *)
     | Some a =>
+        (* before bea76fa: a PLACEHOLDER_REPLACED release of an allocation without a linked replacement read
+           alloc.GetRelease() == nil and dereferenced it (the node of the allocation must exist to get there) *)
+        if negb fixed && (ty =? TT_PlaceholderReplaced) &&
+           match find_alloc (ap_allocs a) key with Some x => (oa_release x =? 0) && node_known s (oa_node x) | None => false end
+        then VCrash else
         if (key =? 0) || memN key (map oa_key (ap_allocs a)) || memN key (map oa_key (ap_requests a)) then VAccept
         else VIgnore
     end.
+Definition release_guard (s : ostate) (app key : N) : verdict := release_guard_gen true s app key 0.
 
 (* ---- processNodes ---- *)
 Definition node_add_guard (s : ostate) (id : N) : verdict := if node_known s id then VReject else VAccept.
 Definition node_upd_guard (s : ostate) (id : N) : verdict := if node_known s id then VAccept else VIgnore.
 
 (* ---- handleRMUpdateApplicationEvent ---- *)
-Definition app_add_guard (s : ostate) (id : N) (forced nougi : bool) : verdict :=
-  if nougi && negb forced then VReject else       (* ConvertUGI: empty user cannot resolve (forced: anonymous user, fix 5223894) *)
+Definition app_add_guard_gen (fixed : bool) (s : ostate) (id : N) (forced nougi : bool) : verdict :=
+  (* ConvertUGI: no user and not forced -> "empty user cannot resolve"; forced -> anonymous user, which before 5223894
+     was written through the nil pointer *)
+  if nougi && negb forced then VReject else
+  if nougi && forced && negb fixed then VCrash else
   if app_known s id then VReject else               (* AddApplication: application already existed *)
   VDecide.
+Definition app_add_guard := app_add_guard_gen true.
 Definition app_remove_guard (s : ostate) (id : N) : verdict := if app_known s id then VAccept else VIgnore.
 
-Definition guard (s : ostate) (op : oop) : verdict :=
+Definition guard_gen (fixed : bool) (s : ostate) (op : oop) : verdict :=
   match op with
-  | OpAlloc r => alloc_guard s r
-  | OpRelease app key _ => release_guard s app key
+  | OpAlloc r => alloc_guard_gen fixed s r
+  | OpRelease app key ty => release_guard_gen fixed s app key ty
   | OpNodeAdd id _ _ => node_add_guard s id
   | OpNodeUpdate id _ | OpNodeDrain id | OpNodeUndrain id | OpNodeRemove id => node_upd_guard s id
-  | OpAppAdd id _ _ forced nougi _ _ _ _ => app_add_guard s id forced nougi
+  | OpAppAdd id _ _ forced nougi _ _ _ _ => app_add_guard_gen fixed s id forced nougi
   | OpAppRemove id => app_remove_guard s id
   | _ => VAccept
   end.
+Definition guard := guard_gen true.
 
 (* the rejection message the protocol has for a request *)
 Definition answer_of (op : oop) : option oevent :=
@@ -140,13 +156,15 @@ Definition foreign_moved (s : ostate) (op : oop) : bool :=
 Definition invalid (s : ostate) (op : oop) : bool := invalid_core s op || foreign_moved s op.
 
 (* ---- the front as a step function: a refused request returns the state it was given ---- *)
-Inductive front_result := Refused (s : ostate) (answer : option oevent) | Passed.
-Definition front (s : ostate) (op : oop) : front_result :=
-  match guard s op with
+Inductive front_result := Refused (s : ostate) (answer : option oevent) | Passed | Crash.
+Definition front_gen (fixed : bool) (s : ostate) (op : oop) : front_result :=
+  match guard_gen fixed s op with
   | VReject => Refused s (answer_of op)
   | VIgnore => Refused s None
   | VAccept | VDecide => Passed
+  | VCrash => Crash
   end.
+Definition front := front_gen true.
 
 (* the verdict the implementation gave, read off the messages of the step *)
 Definition impl_rejected (st : ostep) : bool :=
